@@ -1,3 +1,329 @@
 package main
 
-func genWalk() {}
+import (
+	"fmt"
+	"go/ast"
+	"go/token"
+	"strings"
+)
+
+// genWalk reads
+//
+//	ast/node.go     every node struct (a struct embedding `base`): its Node- and []Node-typed
+//	                fields in declaration order; the three statements of Patch
+//	ast/visitor.go  walker.walk: `w.visitor.Enter(node)` first, then one type switch on
+//	                (*node).(type); per `case *XNode:` the sequence of
+//	                    w.walk(&n.F)                                   -> (F, Single)
+//	                    if n.F != nil { w.walk(&n.F) }                 -> (F, Optional)
+//	                    for i := range n.Fs { w.walk(&n.Fs[i]) }       -> (Fs, Many)
+//	                closed by exactly one `w.visitor.Exit(node)` as the last statement
+//
+// and writes coq/gen/GenWalk.v: per node kind of Syn/Ast.v (fixed order of `all_nkinds`) the
+// declared slots and the walked slots.  Any other shape is reported in walk_unrecognised, which
+// makes the bridge lemma of C10 fail.
+var walkKinds = []string{"Nil", "Identifier", "Integer", "Float", "Bool", "String", "Constant", "Unary", "Binary",
+	"Matches", "Property", "Index", "Slice", "Method", "Function", "Builtin", "Closure", "Pointer",
+	"Conditional", "Array", "Map", "Pair"}
+
+var walkFields = map[string]string{"Node": "FNode", "Left": "FLeft", "Right": "FRight", "Index": "FIndex", "From": "FFrom",
+	"To": "FTo", "Arguments": "FArguments", "Cond": "FCond", "Exp1": "FExp1", "Exp2": "FExp2", "Nodes": "FNodes",
+	"Pairs": "FPairs", "Key": "FKey", "Value": "FValue"}
+
+type walkSlot struct {
+	field string
+	mode  string // Single | Optional | Many
+}
+
+func (s walkSlot) coq() string {
+	f, ok := walkFields[s.field]
+	if !ok {
+		f = "(FOther " + coqString(s.field) + ")"
+	}
+	return "(" + f + ", " + s.mode + ")"
+}
+
+func genWalk() {
+	var unrec []string
+	bad := func(n ast.Node, format string, a ...interface{}) {
+		unrec = append(unrec, pos(n)+": "+fmt.Sprintf(format, a...))
+	}
+	known := map[string]bool{}
+	for _, k := range walkKinds {
+		known[k+"Node"] = true
+	}
+
+	// ---------------------------------------------------------------- ast/node.go
+	declared := map[string][]walkSlot{}
+	declSeen := map[string]bool{}
+	patchType, patchLoc, patchAssign := false, false, false
+	nf := parseFile("ast/node.go")
+	if nf == nil {
+		unrec = append(unrec, "ast/node.go: cannot parse")
+	} else {
+		for _, d := range nf.Decls {
+			gd, ok := d.(*ast.GenDecl)
+			if !ok || gd.Tok != token.TYPE {
+				continue
+			}
+			for _, sp := range gd.Specs {
+				ts := sp.(*ast.TypeSpec)
+				st, ok := ts.Type.(*ast.StructType)
+				if !ok {
+					continue
+				}
+				embedsBase := false
+				for _, f := range st.Fields.List {
+					if len(f.Names) == 0 && src(f.Type) == "base" {
+						embedsBase = true
+					}
+				}
+				if !embedsBase {
+					continue
+				}
+				name := ts.Name.Name
+				if !known[name] {
+					bad(ts, "node kind %s is unknown to the model", name)
+					continue
+				}
+				declSeen[name] = true
+				for _, f := range st.Fields.List {
+					t := src(f.Type)
+					mode := ""
+					switch {
+					case t == "Node":
+						mode = "Single"
+					case t == "[]Node":
+						mode = "Many"
+					case strings.Contains(t, "Node"):
+						bad(f, "field of %s has a type the model does not know: %s", name, t)
+						continue
+					default:
+						continue
+					}
+					if len(f.Names) == 0 {
+						bad(f, "embedded %s in %s", t, name)
+						continue
+					}
+					for _, id := range f.Names {
+						declared[name] = append(declared[name], walkSlot{id.Name, mode})
+					}
+				}
+			}
+		}
+		for _, k := range walkKinds {
+			if !declSeen[k+"Node"] {
+				unrec = append(unrec, "ast/node.go: no struct "+k+"Node")
+			}
+		}
+		// func Patch(node *Node, newNode Node) { newNode.SetType((*node).Type()); newNode.SetLocation((*node).Location()); *node = newNode }
+		if pd := funcDecl(nf, "Patch", ""); pd == nil || pd.Body == nil {
+			unrec = append(unrec, "ast/node.go: no func Patch")
+		} else {
+			var ps []string
+			for _, f := range pd.Type.Params.List {
+				for _, id := range f.Names {
+					ps = append(ps, id.Name+" "+src(f.Type))
+				}
+			}
+			params := strings.Join(ps, ", ")
+			if params != "node *Node, newNode Node" {
+				bad(pd, "parameters of Patch: %s", params)
+			}
+			for _, s := range pd.Body.List {
+				switch strings.Join(strings.Fields(src(s)), "") {
+				case "newNode.SetType((*node).Type())":
+					if patchAssign {
+						bad(s, "Patch copies the type after the assignment")
+					}
+					patchType = true
+				case "newNode.SetLocation((*node).Location())":
+					if patchAssign {
+						bad(s, "Patch copies the location after the assignment")
+					}
+					patchLoc = true
+				case "*node=newNode":
+					patchAssign = true
+				default:
+					bad(s, "statement of Patch: %s", src(s))
+				}
+			}
+		}
+	}
+
+	// ---------------------------------------------------------------- ast/visitor.go
+	walked := map[string][]walkSlot{}
+	caseSeen := map[string]bool{}
+	vf := parseFile("ast/visitor.go")
+	norm := func(n ast.Node) string { return strings.Join(strings.Fields(src(n)), "") }
+	// `w.walk(&n.F)` -> F ;  `w.walk(&n.F[i])` -> F, i
+	walkCall := func(s ast.Stmt) (field, index string, ok bool) {
+		es, isExpr := s.(*ast.ExprStmt)
+		if !isExpr {
+			return
+		}
+		call, isCall := es.X.(*ast.CallExpr)
+		if !isCall || norm(call.Fun) != "w.walk" || len(call.Args) != 1 {
+			return
+		}
+		u, isU := call.Args[0].(*ast.UnaryExpr)
+		if !isU || u.Op != token.AND {
+			return
+		}
+		x := u.X
+		if ix, isIx := x.(*ast.IndexExpr); isIx {
+			id, isId := ix.Index.(*ast.Ident)
+			if !isId {
+				return
+			}
+			index = id.Name
+			x = ix.X
+		}
+		sel, isSel := x.(*ast.SelectorExpr)
+		if !isSel {
+			return
+		}
+		if id, isId := sel.X.(*ast.Ident); !isId || id.Name != "n" {
+			return
+		}
+		return sel.Sel.Name, index, true
+	}
+	if vf == nil {
+		unrec = append(unrec, "ast/visitor.go: cannot parse")
+	} else {
+		// func Walk(node *Node, visitor Visitor) { w := walker{visitor: visitor}; w.walk(node) }
+		if wd := funcDecl(vf, "Walk", ""); wd == nil || wd.Body == nil {
+			unrec = append(unrec, "ast/visitor.go: no func Walk")
+		} else {
+			b := wd.Body.List
+			if len(b) != 2 || norm(b[0]) != "w:=walker{visitor:visitor,}" && norm(b[0]) != "w:=walker{visitor:visitor}" || norm(b[1]) != "w.walk(node)" {
+				bad(wd, "body of Walk is not `w := walker{visitor: visitor}; w.walk(node)`")
+			}
+		}
+		fd := funcDecl(vf, "walk", "walker")
+		if fd == nil || fd.Body == nil {
+			unrec = append(unrec, "ast/visitor.go: no method walker.walk")
+		} else {
+			body := fd.Body.List
+			if len(body) != 2 {
+				bad(fd, "walker.walk has %d statements, expected Enter call and type switch", len(body))
+			}
+			if len(body) < 1 || norm(body[0]) != "w.visitor.Enter(node)" {
+				bad(fd, "walker.walk does not start with w.visitor.Enter(node)")
+			}
+			var sw *ast.TypeSwitchStmt
+			for _, s := range body {
+				if t, ok := s.(*ast.TypeSwitchStmt); ok && sw == nil {
+					sw = t
+				}
+			}
+			if sw == nil {
+				bad(fd, "walker.walk has no type switch")
+			} else {
+				if sw.Init != nil || norm(sw.Assign) != "n:=(*node).(type)" {
+					bad(sw, "type switch is not `switch n := (*node).(type)`")
+				}
+				for _, cs := range sw.Body.List {
+					cc := cs.(*ast.CaseClause)
+					if cc.List == nil {
+						if len(cc.Body) != 1 || !strings.HasPrefix(norm(cc.Body[0]), "panic(") {
+							bad(cc, "default case is not a panic")
+						}
+						continue
+					}
+					var slots []walkSlot
+					exits := 0
+					for i, s := range cc.Body {
+						if norm(s) == "w.visitor.Exit(node)" {
+							exits++
+							if i != len(cc.Body)-1 {
+								bad(s, "Exit is not the last statement of the case")
+							}
+							continue
+						}
+						if f, ix, ok := walkCall(s); ok && ix == "" {
+							slots = append(slots, walkSlot{f, "Single"})
+							continue
+						}
+						if is, ok := s.(*ast.IfStmt); ok && is.Init == nil && is.Else == nil && len(is.Body.List) == 1 {
+							if f, ix, ok := walkCall(is.Body.List[0]); ok && ix == "" && norm(is.Cond) == "n."+f+"!=nil" {
+								slots = append(slots, walkSlot{f, "Optional"})
+								continue
+							}
+						}
+						if rs, ok := s.(*ast.RangeStmt); ok && rs.Value == nil && rs.Tok == token.DEFINE && len(rs.Body.List) == 1 {
+							if key, isId := rs.Key.(*ast.Ident); isId {
+								if f, ix, ok := walkCall(rs.Body.List[0]); ok && ix == key.Name && norm(rs.X) == "n."+f {
+									slots = append(slots, walkSlot{f, "Many"})
+									continue
+								}
+							}
+						}
+						bad(s, "statement of a walk case: %s", strings.Join(strings.Fields(src(s)), " "))
+					}
+					if exits != 1 {
+						bad(cc, "case calls Exit %d times", exits)
+					}
+					for _, te := range cc.List {
+						name := ""
+						if st, ok := te.(*ast.StarExpr); ok {
+							if ident, isId := st.X.(*ast.Ident); isId {
+								name = ident.Name
+							}
+						}
+						if name == "" || !known[name] {
+							bad(te, "case type %s is unknown to the model", src(te))
+							continue
+						}
+						if caseSeen[name] {
+							bad(te, "second case for %s", name)
+							continue
+						}
+						caseSeen[name] = true
+						walked[name] = slots
+					}
+				}
+				for _, k := range walkKinds {
+					if !caseSeen[k+"Node"] {
+						bad(sw, "no case for *%sNode (the walker panics on it)", k)
+					}
+				}
+			}
+		}
+	}
+
+	// ---------------------------------------------------------------- output
+	var b strings.Builder
+	b.WriteString("(* GENERATED by /verif/translator from ast/node.go and ast/visitor.go — do not edit *)\n")
+	b.WriteString("From Coq Require Import List String.\nRequire Import X.Syn.Ast X.Walk.Walk.\nImport ListNotations.\nOpen Scope string_scope.\n\n")
+	table := func(name, comment string, m map[string][]walkSlot) {
+		fmt.Fprintf(&b, "(* %s *)\nDefinition %s (k : nkind) : list slot :=\n  match k with\n", comment, name)
+		for _, k := range walkKinds {
+			items := make([]string, 0)
+			for _, s := range m[k+"Node"] {
+				items = append(items, s.coq())
+			}
+			fmt.Fprintf(&b, "  | Nk%s => [%s]\n", k, strings.Join(items, "; "))
+		}
+		b.WriteString("  end.\n\n")
+	}
+	table("gen_declared", "ast/node.go: the Node (Single) and []Node (Many) typed fields of every node struct, in declaration order", declared)
+	table("gen_walked", "ast/visitor.go walker.walk: the fields walked by the case of every node kind, in order; Optional = under `if n.F != nil`", walked)
+	bl := func(v bool) string {
+		if v {
+			return "true"
+		}
+		return "false"
+	}
+	b.WriteString("(* ast/node.go Patch: the new node receives the old node's Type() and Location() before it is stored through the pointer *)\n")
+	fmt.Fprintf(&b, "Definition gen_patch_copies_type : bool := %s.\nDefinition gen_patch_copies_location : bool := %s.\nDefinition gen_patch_assigns : bool := %s.\n\n",
+		bl(patchType), bl(patchLoc), bl(patchAssign))
+	b.WriteString("Definition walk_unrecognised : list string := [")
+	for i, u := range unrec {
+		if i > 0 {
+			b.WriteString("; ")
+		}
+		b.WriteString(coqString(strings.ReplaceAll(strings.ReplaceAll(u, "(*", "( *"), "*)", "* )")))
+	}
+	b.WriteString("].\n")
+	writeIfChanged("GenWalk.v", b.String())
+}
